@@ -105,6 +105,7 @@ REVERT_PROPS = {
     "collect.flush hands its consumers' awaitables": ['C02'],
     'map_async runs one worker at a time': ['C02'],
     'map_async.stop() on a node that is not running': ['C02'],
+    'from_textfile decodes incrementally': ['C17'],
 }
 
 
